@@ -1,6 +1,7 @@
 package cmp
 
 import (
+	"math"
 	"time"
 
 	pref "google.golang.org/protobuf/reflect/protoreflect"
@@ -28,9 +29,11 @@ func TimeValueWithin(d time.Duration) Value {
 
 		xt, yt := toTime(mx), toTime(my)
 		if xt.Before(yt) {
-			return yt.Sub(xt) <= d, true
+			xt, yt = yt, xt
 		}
-		return xt.Sub(yt) <= d, true
+		diff := xt.Sub(yt)
+		// Sub saturates at the largest Duration: a saturated result only counts when the times really are that far apart
+		return diff <= d && (diff < math.MaxInt64 || yt.Add(diff).Equal(xt)), true
 	}
 }
 
